@@ -256,38 +256,57 @@ func refTypedFacts(s *ast.Schema, doc *ast.QueryDocument, set ast.SelectionSet, 
 	}
 }
 
-// keyReuse tags operations in which the response key of a composite field also
-// occurs elsewhere in the operation (executor.FindSelection searches depth-first by key).
+// keyReuse tags operations in which the response key K of a composite field is
+// shadowed for executor.FindSelection: that function looks for K among the
+// siblings in order and descends into each sibling's subtree before moving on,
+// so an earlier sibling whose subtree contains K is found first.
 func keyReuse(op *ast.OperationDefinition, tags map[string]bool) {
-	count := map[string]int{}
-	comp := map[string]bool{}
-	var walk func(set ast.SelectionSet)
-	walk = func(set ast.SelectionSet) {
+	var flatten func(set ast.SelectionSet) []*ast.Field
+	flatten = func(set ast.SelectionSet) []*ast.Field {
+		var out []*ast.Field
 		for _, sel := range set {
 			switch x := sel.(type) {
 			case *ast.Field:
-				k := x.Alias
-				if k == "" {
-					k = x.Name
-				}
-				count[k]++
-				if len(x.SelectionSet) > 0 {
-					comp[k] = true
-					walk(x.SelectionSet)
-				}
+				out = append(out, x)
 			case *ast.InlineFragment:
-				walk(x.SelectionSet)
+				out = append(out, flatten(x.SelectionSet)...)
 			case *ast.FragmentSpread:
 				if x.Definition != nil {
-					walk(x.Definition.SelectionSet)
+					out = append(out, flatten(x.Definition.SelectionSet)...)
 				}
 			}
 		}
+		return out
 	}
-	walk(op.SelectionSet)
-	for k := range comp {
-		if count[k] > 1 {
-			tags["f:composite-key-reused"] = true
+	key := func(f *ast.Field) string {
+		if f.Alias != "" {
+			return f.Alias
+		}
+		return f.Name
+	}
+	var subtreeHas func(f *ast.Field, k string) bool
+	subtreeHas = func(f *ast.Field, k string) bool {
+		for _, c := range flatten(f.SelectionSet) {
+			if key(c) == k || subtreeHas(c, k) {
+				return true
+			}
+		}
+		return false
+	}
+	var walk func(set ast.SelectionSet)
+	walk = func(set ast.SelectionSet) {
+		fs := flatten(set)
+		for j, fj := range fs {
+			if len(fj.SelectionSet) == 0 {
+				continue
+			}
+			for i := 0; i < j; i++ {
+				if key(fs[i]) != key(fj) && subtreeHas(fs[i], key(fj)) {
+					tags["f:composite-key-reused"] = true
+				}
+			}
+			walk(fj.SelectionSet)
 		}
 	}
+	walk(op.SelectionSet)
 }
